@@ -9,6 +9,27 @@ fn main() {
         eprintln!("usage: monitor <Cnn> --tier quick|thorough --seed N --out file [--replay file]");
         std::process::exit(2);
     }
+    if args[1] == "--list-extra-keys" {
+        // child-process helper of keys::universe()
+        for (set, seq) in keys::list_extra_key_sequences() {
+            println!("{} {}", set, seq.iter().map(|b| format!("{:02X}", b)).collect::<String>());
+        }
+        return;
+    }
+    if args[1] == "--part" {
+        // child-process helper: one part of a monitor, result JSON on stdout
+        install_panic_hook();
+        let part = args.get(2).cloned().unwrap_or_default();
+        let tier = args.iter().position(|a| a == "--tier").and_then(|i| args.get(i + 1)).cloned().unwrap_or_else(|| "quick".into());
+        let seed: u64 = args.iter().position(|a| a == "--seed").and_then(|i| args.get(i + 1)).and_then(|s| s.parse().ok()).unwrap_or(1);
+        let mut rep = Report::new("part", &tier, seed);
+        match part.as_str() {
+            "c05-keyboard-add-word" => mon_frame::part_kb_add_word(&mut rep),
+            _ => std::process::exit(2),
+        }
+        print!("{}", rep.to_json().to_string());
+        return;
+    }
     let prop = args[1].clone();
     let mut tier = "quick".to_string();
     let mut seed = 1u64;
